@@ -16,6 +16,7 @@ struct Par {
   double sigma, tau, dt, gamma_ps;
   int refl;      // 0 none, 1 lower at 1.9, 2 upper at 2.1
   bool bypass;   // second bias acting on the actual coordinate (harmonicWalls, bypassExtendedLagrangian default on)
+  bool same_step = false;  // the engine hands over total forces of the same step (the extended coordinate's dynamics do not depend on it)
 };
 
 static std::string conf_text(Par const &p)
@@ -111,6 +112,8 @@ int main(int argc, char **argv)
           }
   pars.push_back(Par{0.2, 20.0, 1.0, 0.0, 0, true});
   pars.push_back(Par{0.4, 50.0, 2.0, 10.0, 0, true});
+  pars.push_back(Par{0.2, 20.0, 1.0, 0.0, 0, false, true});
+  pars.push_back(Par{0.2, 20.0, 1.0, 0.0, 1, false, true});
   long nw = 1;
   for (int i = 0; i < L; i++) nw *= 12;
   long nseg = 1L << (L - 1);
@@ -143,14 +146,14 @@ int main(int argc, char **argv)
           if (thorough && sg != 0 && (w % 2) != 1) continue;
           r.count("evaluations");
           std::string det = "{\"sigma\":" + num(p.sigma) + ",\"tau\":" + num(p.tau) + ",\"dt\":" + num(p.dt) + ",\"damping\":" + num(p.gamma_ps) + ",\"reflecting\":" +
-                            std::to_string(p.refl) + ",\"bypassing_bias\":" + (p.bypass ? "true" : "false") + ",\"moves_and_forces\":" + wj + ",\"new_run_after_steps\":" +
+                            std::to_string(p.refl) + ",\"bypassing_bias\":" + (p.bypass ? "true" : "false") + (p.same_step ? ",\"engine_total_forces\":\"same step\"" : "") + ",\"moves_and_forces\":" + wj + ",\"new_run_after_steps\":" +
                             std::to_string(sg) + ",\"run_boundary\":\"" + (kind == 0 ? "same process" : (kind == 1 ? "state restart" : "state restart, stop step evaluated twice")) + "\"" +
                             (jmp ? ",\"atoms_displaced_between_the_runs_by\":" + num(jump) : std::string());
           double xi = 2.0;
           double fnow = 0;
           vproxy *px = NULL;
           auto make_px = [&](std::deque<double> const &rng) {
-            px = new vproxy(2);
+            px = new vproxy(2, p.same_step);
             px->set_target_temperature(300.0);
             px->set_integration_timestep(p.dt);
             px->rng = rng;
@@ -167,6 +170,7 @@ int main(int argc, char **argv)
           make_px(rng0);
           colvar *cv = px->cv("d");
           bool failed = false;
+          bool tf_reported = false;
           bool after_reflection = false;
           long rng_before = 0;
           Ref ref(p, xi + MOVE[mv[0]]);  // the extended coordinate starts on the actual value of the first step
@@ -224,7 +228,14 @@ int main(int argc, char **argv)
               if (!after_reflection) cmp("reported-velocity-differs-from-integrator", cv->v_reported.real_value, o.v_rep, 1e-3);
               cmp("potential-energy-differs", cv->potential_energy, o.Ep, 1.0);
               if (!after_reflection) cmp("kinetic-energy-differs", cv->kinetic_energy, o.Ek, 1e-3);
-              cmp("total-force-differs", cv->ft_reported.real_value, o.f_ext, 1.0);
+              if (!p.same_step) cmp("total-force-differs", cv->ft_reported.real_value, o.f_ext, 1.0);
+              else if (!failed && !close_rel(cv->ft_reported.real_value, o.f_ext, std::max(1.0, std::fabs(o.f_ext)), 1e-10, 1e-12)) {
+                // reported once per case, and the other quantities of the case are still compared (this one is a listed finding)
+                if (!tf_reported)
+                  r.violation("C17:total-force-differs:engine-with-same-step-total-forces",
+                              det + ",\"step\":" + std::to_string(s) + ",\"observed\":" + num(cv->ft_reported.real_value) + ",\"expected\":" + num(o.f_ext) + "}");
+                tf_reported = true;
+              }
               // atoms feel the coupling spring plus biases that bypass the extended coordinate, nothing else
               cmp("atomic-force-is-not-spring-plus-bypassing-biases", px->fapp[1].x, o.spring_on_atoms + wall, 1.0);
               // boundary clause on the new position
